@@ -1,4 +1,8 @@
 import DadiVerif.Lemmas.DFE
+import DadiVerif.Lemmas.DFEMass
+import DadiVerif.Lemmas.PDFs
+import DadiVerif.Lemmas.PDFsReal
+import DadiVerif.Generated.PDFsReal
 /-!
 # C17 — DFE integration is the documented quadrature of a schedule-independent cache
 
@@ -505,5 +509,506 @@ theorem C17_split_missing (multi : Bool) (N s : ℕ) (hs : 1 ≤ s) (T : ℕ →
 end
 
 example : (∀ j < 3, j ∈ [2, 0, 1, 1]) ∧ (1 : ℕ) ∉ [0, 2] := by decide
+
+/-! ## Round 4 — compiled bivariate densities equal their reference formulas
+
+`Gen.PDFsReal.c_ln_cell` / `c_g_cell` are the per-cell expressions of dadi/DFE/PDFs.c (value stored by iteration
+(ii, jj) of the output loop, with the Nparams dispatch), `py_ln_cell` / `py_g_cell` entry [i, j] of the arrays returned by
+`biv_lognormal_py` / `biv_ind_gamma_py` of dadi/DFE/PDFs.py, all regenerated from the source on every run;
+`Gen.PDFs.*` are the loop extents, the index expression, the dispatch tables and the wrapper bindings (the same
+definitions the driver reports in `c17.pdflayout` / `c17.pdfdispatch`).  `bivLognormal`, `lognormalDensity`,
+`gammaDensity` (Lemmas/PDFsReal.lean) are the textbook densities.  Not covered: floating point, and the accuracy of
+the Lanczos `gamma_func` (the gamma theorems take `gamma_func α = Γ α` as a hypothesis). -/
+
+section pdfs
+open PDFs Gen.PDFs Gen.PDFsReal
+
+set_option linter.unusedTactic false in
+set_option linter.unreachableTactic false in
+/-- The compiled code assigns its parameters for exactly the parameter-vector lengths the reference formulas accept
+    (3 or 5 for the lognormal; 2, 3, 4 or 5 for the gamma), and reads every variable from the same entry. -/
+theorem C17_pdf_lengths (L : ℕ) :
+    c_ln_handled L = py_ln_accepts L ∧ c_g_handled L = py_g_accepts L ∧
+    c_ln_dispatch L = py_ln_dispatch L ∧ c_g_dispatch L = py_g_dispatch L ∧
+    (py_ln_accepts L = true ↔ L = 3 ∨ L = 5) ∧ (py_g_accepts L = true ↔ L = 2 ∨ L = 3 ∨ L = 4 ∨ L = 5) := by
+  refine ⟨?_, ?_, ?_, ?_, ?_, ?_⟩
+  · first | rfl | (simp only [c_ln_handled, py_ln_accepts]; cases hL3 : L == 3 <;> cases hL5 : L == 5 <;> simp_all)
+  · first | rfl | (simp only [c_g_handled, py_g_accepts]; simp [Bool.or_assoc, Bool.or_comm])
+  · first | rfl | (simp only [c_ln_dispatch, py_ln_dispatch]; split_ifs <;> simp_all)
+  · first | rfl | (simp only [c_g_dispatch, py_g_dispatch]; split_ifs <;> simp_all)
+  · simp [py_ln_accepts]
+  · simp [py_g_accepts, or_assoc]
+
+/-- value of a dispatched variable: the entry of `params` the table names, 0 where it names none -/
+def paramOf (table : List (String × Option ℕ)) (params : ℕ → ℝ) (v : String) : ℝ :=
+  match dispatchOf table v with
+  | some (some k) => params k
+  | _ => 0
+
+/-- spelled out: 5 parameters are (μ₁, μ₂, σ₁, σ₂, ρ), 3 parameters are (μ, σ, ρ) -/
+theorem C17_pdf_lognormal_closed_form (xx yy params : ℕ → ℝ) (n m i j : ℕ) :
+    c_ln_cell xx yy params n m 5 i j
+      = bivLognormal (params 0) (params 1) (params 2) (params 3) (params 4) (xx i) (yy j) ∧
+    c_ln_cell xx yy params n m 3 i j
+      = bivLognormal (params 0) (params 0) (params 1) (params 1) (params 2) (xx i) (yy j) := by
+  constructor
+  · simp (config := {decide := true}) only [c_ln_cell, bivLognormal, zlog, div_mul_eq_div_div, ↓reduceIte]
+    ring_nf
+  · simp (config := {decide := true}) only [c_ln_cell, bivLognormal, zlog, div_mul_eq_div_div, ↓reduceIte]
+    ring_nf
+
+/-- **Bivariate lognormal.**  For every parameter-vector length the code accepts (3 and 5), every pair of evaluation
+    grids (any sizes n, m), every cell: the value the compiled loop stores equals entry [i, j] of the Python reference
+    formula, and both are the bivariate lognormal density with the parameters named by the dispatch table. -/
+theorem C17_pdf_lognormal_eq (xx yy params : ℕ → ℝ) (n m i j L : ℕ) (hL : c_ln_handled L = true) :
+    c_ln_cell xx yy params n m L i j = py_ln_cell xx yy params L i j ∧
+    c_ln_cell xx yy params n m L i j
+      = bivLognormal (paramOf (c_ln_dispatch L) params "mu1") (paramOf (c_ln_dispatch L) params "mu2")
+          (paramOf (c_ln_dispatch L) params "sigma1") (paramOf (c_ln_dispatch L) params "sigma2")
+          (paramOf (c_ln_dispatch L) params "rho") (xx i) (yy j) := by
+  have h : L = 3 ∨ L = 5 := by simpa [c_ln_handled] using hL
+  obtain ⟨h5, h3⟩ := C17_pdf_lognormal_closed_form xx yy params n m i j
+  rcases h with rfl | rfl
+  · constructor
+    · simp (config := {decide := true}) only [c_ln_cell, py_ln_cell, ↓reduceIte, true_or, or_true]
+      ring_nf
+    · rw [h3]; simp [paramOf, dispatchOf, c_ln_dispatch]
+  · constructor
+    · simp (config := {decide := true}) only [c_ln_cell, py_ln_cell, ↓reduceIte, true_or, or_true]
+      ring_nf
+    · rw [h5]; simp [paramOf, dispatchOf, c_ln_dispatch]
+
+example : c_ln_handled 3 = true ∧ c_ln_handled 5 = true := by decide
+
+/-- On the domain of the property (x, y > 0, σ₁, σ₂ > 0, |ρ| < 1) no denominator of the expression vanishes and the
+    compiled value is a positive number (so Lean's totalised division is the real one there). -/
+theorem C17_pdf_lognormal_pos (xx yy params : ℕ → ℝ) (n m i j : ℕ) (hx : 0 < xx i) (hy : 0 < yy j) :
+    (0 < params 2 → 0 < params 3 → |params 4| < 1 → 0 < c_ln_cell xx yy params n m 5 i j) ∧
+    (0 < params 1 → |params 2| < 1 → 0 < c_ln_cell xx yy params n m 3 i j) := by
+  obtain ⟨h5, h3⟩ := C17_pdf_lognormal_closed_form xx yy params n m i j
+  constructor
+  · intro h1 h2 hr; rw [h5]; exact bivLognormal_pos hx hy h1 h2 hr
+  · intro h1 hr; rw [h3]; exact bivLognormal_pos hx hy h1 h1 hr
+
+example : (0 : ℝ) < 1 ∧ |(1 / 2 : ℝ)| < 1 := by norm_num [abs_lt]
+
+/-- parameter vector given as a list -/
+def pvec (l : List ℝ) : ℕ → ℝ := fun k => l.getD k 0
+
+/-- The symmetric 3-parameter form (μ, σ, ρ) is the 5-parameter form with μ₁ = μ₂ = μ, σ₁ = σ₂ = σ — in the compiled
+    code and in the reference — and it is symmetric under exchanging the two arguments (what the symmetric shortcut
+    of `Cache2D.integrate` relies on). -/
+theorem C17_pdf_lognormal_symmetric_form (xx yy : ℕ → ℝ) (mu sigma rho : ℝ) (n m i j : ℕ) :
+    c_ln_cell xx yy (pvec [mu, sigma, rho]) n m 3 i j = c_ln_cell xx yy (pvec [mu, mu, sigma, sigma, rho]) n m 5 i j ∧
+    py_ln_cell xx yy (pvec [mu, sigma, rho]) 3 i j = py_ln_cell xx yy (pvec [mu, mu, sigma, sigma, rho]) 5 i j ∧
+    c_ln_cell xx yy (pvec [mu, sigma, rho]) n m 3 i j = c_ln_cell yy xx (pvec [mu, sigma, rho]) m n 3 j i := by
+  refine ⟨?_, ?_, ?_⟩
+  · simp [c_ln_cell, pvec]
+  · simp [py_ln_cell, pvec]
+  · rw [(C17_pdf_lognormal_closed_form xx yy _ n m i j).2, (C17_pdf_lognormal_closed_form yy xx _ m n j i).2]
+    exact bivLognormal_swap _ _ _ _ _
+
+/-- With ρ = 0 the bivariate lognormal is the product of the univariate `PDFs.lognormal` of the two arguments (the
+    1-D and 2-D components of the mixtures share μ, σ). -/
+theorem C17_pdf_lognormal_rho_zero (xx yy : ℕ → ℝ) (mu1 mu2 s1 s2 : ℝ) (n m i j : ℕ) (hx : 0 < xx i) (hy : 0 < yy j) :
+    c_ln_cell xx yy (pvec [mu1, mu2, s1, s2, 0]) n m 5 i j
+      = py_lognormal (xx i) (pvec [mu1, s1]) * py_lognormal (yy j) (pvec [mu2, s2]) := by
+  rw [(C17_pdf_lognormal_closed_form xx yy _ n m i j).1]
+  simp only [py_lognormal, scipyPdf, scipyLognormStd, sub_zero, pvec, List.getD_cons_zero, List.getD_cons_succ]
+  rw [lognorm_scipy_eq hx, lognorm_scipy_eq hy]
+  exact bivLognormal_rho_zero _ _ _ _ _ _
+
+/-- **Bivariate independent gamma.**  For every accepted length (2, 3: shared shape and scale; 4, 5: (α₁, α₂, β₁, β₂); a
+    trailing third / fifth entry is ignored), every grid and cell, with x, y > 0 and scales > 0: the compiled value
+    equals the reference (`scipy.stats.gamma.pdf` marginals) provided `gamma_func` returns Γ at the shapes used, and
+    both are the product of the two gamma densities. -/
+theorem C17_pdf_gamma_eq (gamma_func : ℝ → ℝ) (xx yy params : ℕ → ℝ) (n m i j : ℕ) (hx : 0 < xx i) (hy : 0 < yy j) :
+    (∀ L, L = 2 ∨ L = 3 → 0 < params 1 → gamma_func (params 0) = Real.Gamma (params 0) →
+      c_g_cell gamma_func xx yy params n m L i j = py_g_cell xx yy params L i j ∧
+      py_g_cell xx yy params L i j = gammaDensity (params 0) (params 1) (xx i) * gammaDensity (params 0) (params 1) (yy j)) ∧
+    (∀ L, L = 4 ∨ L = 5 → 0 < params 2 → 0 < params 3 → gamma_func (params 0) = Real.Gamma (params 0) →
+      gamma_func (params 1) = Real.Gamma (params 1) →
+      c_g_cell gamma_func xx yy params n m L i j = py_g_cell xx yy params L i j ∧
+      py_g_cell xx yy params L i j = gammaDensity (params 0) (params 2) (xx i) * gammaDensity (params 1) (params 3) (yy j)) := by
+  constructor
+  · intro L hL hb hG
+    rcases hL with rfl | rfl <;>
+    · simp (config := {decide := true}) only [c_g_cell, py_g_cell, scipyPdf, scipyGammaStd, cpow, sub_zero, ↓reduceIte,
+        true_or, or_true]
+      rw [gamma_scipy_eq _ hx hb, gamma_scipy_eq _ hy hb]
+      simp only [hG, gammaDensity, gammaDensityWith, and_self]
+  · intro L hL hb1 hb2 hG1 hG2
+    rcases hL with rfl | rfl <;>
+    · simp (config := {decide := true}) only [c_g_cell, py_g_cell, scipyPdf, scipyGammaStd, cpow, sub_zero, ↓reduceIte,
+        true_or, or_true]
+      rw [gamma_scipy_eq _ hx hb1, gamma_scipy_eq _ hy hb2]
+      simp only [hG1, hG2, gammaDensity, gammaDensityWith, and_self]
+
+example : (0 : ℝ) < pvec [2, 3] 1 ∧ (fun a : ℝ => Real.Gamma a) (pvec [2, 3] 0) = Real.Gamma (pvec [2, 3] 0) := by
+  simp [pvec]
+
+/-- the compiled gamma value is positive on the domain when `gamma_func` is positive at the shapes -/
+theorem C17_pdf_gamma_pos (gamma_func : ℝ → ℝ) (xx yy params : ℕ → ℝ) (n m i j : ℕ) (hx : 0 < xx i) (hy : 0 < yy j)
+    (hb1 : 0 < params 2) (hb2 : 0 < params 3) (h1 : 0 < gamma_func (params 0)) (h2 : 0 < gamma_func (params 1)) :
+    0 < c_g_cell gamma_func xx yy params n m 4 i j := by
+  have e : c_g_cell gamma_func xx yy params n m 4 i j
+      = gammaDensityWith (gamma_func (params 0)) (params 0) (params 2) (xx i)
+        * gammaDensityWith (gamma_func (params 1)) (params 1) (params 3) (yy j) := by
+    simp (config := {decide := true}) only [c_g_cell, cpow, gammaDensityWith, ↓reduceIte, true_or, or_true]
+  rw [e]
+  exact mul_pos (gammaDensityWith_pos h1 hx hb1) (gammaDensityWith_pos h2 hy hb2)
+
+example : (0 : ℝ) < 1 := one_pos
+
+/-- The 2-parameter form is the 4-parameter form with α₁ = α₂, β₁ = β₂; the third / fifth entry is ignored — in the
+    compiled code and in the reference. -/
+theorem C17_pdf_gamma_symmetric_form (gamma_func : ℝ → ℝ) (xx yy : ℕ → ℝ) (a b a2 b2 extra : ℝ) (n m i j : ℕ) :
+    c_g_cell gamma_func xx yy (pvec [a, b]) n m 2 i j = c_g_cell gamma_func xx yy (pvec [a, a, b, b]) n m 4 i j ∧
+    c_g_cell gamma_func xx yy (pvec [a, b, extra]) n m 3 i j = c_g_cell gamma_func xx yy (pvec [a, b]) n m 2 i j ∧
+    c_g_cell gamma_func xx yy (pvec [a, a2, b, b2, extra]) n m 5 i j = c_g_cell gamma_func xx yy (pvec [a, a2, b, b2]) n m 4 i j ∧
+    py_g_cell xx yy (pvec [a, b]) 2 i j = py_g_cell xx yy (pvec [a, a, b, b]) 4 i j ∧
+    py_g_cell xx yy (pvec [a, b, extra]) 3 i j = py_g_cell xx yy (pvec [a, b]) 2 i j ∧
+    py_g_cell xx yy (pvec [a, a2, b, b2, extra]) 5 i j = py_g_cell xx yy (pvec [a, a2, b, b2]) 4 i j := by
+  refine ⟨?_, ?_, ?_, ?_, ?_, ?_⟩ <;> simp [c_g_cell, py_g_cell, pvec]
+
+/-- The reference bivariate gamma is the product of the univariate `PDFs.gamma` of the two arguments (what
+    `Vourlaki_mixture` pairs with `biv_ind_gamma`). -/
+theorem C17_pdf_gamma_marginals (xx yy params : ℕ → ℝ) (i j : ℕ) :
+    py_g_cell xx yy params 2 i j = py_gamma (xx i) params * py_gamma (yy j) params ∧
+    py_g_cell xx yy params 4 i j
+      = py_gamma (xx i) (pvec [params 0, params 2]) * py_gamma (yy j) (pvec [params 1, params 3]) := by
+  constructor <;> simp [py_g_cell, py_gamma, pvec]
+
+/-- The univariate densities of PDFs.py, as written there (scipy.stats calls with scipy's documented formulas), in
+    closed form on x > 0. -/
+theorem C17_pdf_univariate (x mu sigma : ℝ) (params : ℕ → ℝ) (hx : 0 < x) :
+    py_lognormal x params = lognormalDensity (params 0) (params 1) x ∧
+    (0 < params 1 → py_gamma x params = gammaDensity (params 0) (params 1) x) ∧
+    py_exponential x params = Real.exp (-(x / params 0)) / params 0 ∧
+    py_normal x mu sigma = Real.exp (-((x - mu) / sigma) ^ 2 / 2) / Real.sqrt (2 * Real.pi) / sigma ∧
+    py_beta x params = Real.Gamma (params 0 + params 1) * x ^ (params 0 - 1) * (1 - x) ^ (params 1 - 1)
+        / (Real.Gamma (params 0) * Real.Gamma (params 1)) := by
+  refine ⟨?_, ?_, ?_, ?_, ?_⟩
+  · simp only [py_lognormal, scipyPdf, scipyLognormStd, sub_zero]
+    exact lognorm_scipy_eq hx
+  · intro hb
+    simp only [py_gamma, scipyPdf, scipyGammaStd, sub_zero]
+    exact gamma_scipy_eq _ hx hb
+  · simp only [py_exponential, scipyPdf, scipyExponStd, sub_zero]
+  · simp only [py_normal, scipyPdf, scipyNormStd]
+  · simp only [py_beta, scipyPdf, scipyBetaStd, sub_zero, div_one]
+
+example : (0 : ℝ) < 2 := two_pos
+
+/-- **Output layout.**  For inputs of any sizes `xs`, `ys` (rectangular grids included) the array the wrapper returns
+    has shape (xs, ys), its entry [i, j] (numpy row-major addressing of the flat buffer) is the value the loops computed
+    for (ii, jj) = (i, j), every cell is written and nothing is written at or beyond the end of the buffer — i.e. the
+    index expression of the output loop is row-major with stride `ys`.  `gam = true`: biv_ind_gamma. -/
+theorem C17_pdf_index_row_major {α : Type} (gam : Bool) (xs ys ps : ℕ) (val : ℕ → ℕ → α) :
+    resultShape gam xs ys ps = (xs, ys) ∧
+    (∀ i < xs, ∀ j < ys, resultAt gam xs ys ps val i j = some (val i j)) ∧
+    (∀ k, xs * ys ≤ k → bufferAfter gam xs ys ps val k = none) := by
+  cases gam
+  · refine ⟨rfl, ?_, ?_⟩
+    · intro i hi j hj
+      exact (fill2_rowMajor xs ys val).1 i hi j hj
+    · intro k hk
+      exact (fill2_rowMajor xs ys val).2 k hk
+  · refine ⟨rfl, ?_, ?_⟩
+    · intro i hi j hj
+      exact (fill2_rowMajor xs ys val).1 i hi j hj
+    · intro k hk
+      exact (fill2_rowMajor xs ys val).2 k hk
+
+/-- Work arrays and wrappers: every work array is malloc'ed with as many entries as the loop filling it writes and the
+    loop reading it reads, it is computed from the input array of that very extent (xx ↔ n, yy ↔ m), direct reads of
+    xx / yy in the output loop use the matching loop variable, the Cython wrapper passes the pointers in order and
+    `params.size` as Nparams, and PDFs.py hands contiguous float arrays over. -/
+theorem C17_pdf_buffers :
+    (∀ b ∈ c_ln_buffers ++ c_g_buffers, b.2.1 = b.2.2.1 ∧ b.2.2.1 = b.2.2.2.1 ∧ b.2.2.2.1 = b.2.2.2.2.2 ∧
+      ((b.2.2.2.2.1 = "xx" ∧ b.2.1 = "n") ∨ (b.2.2.2.2.1 = "yy" ∧ b.2.1 = "m"))) ∧
+    (∀ r ∈ c_ln_directReads ++ c_g_directReads, r = ("xx", "n") ∨ r = ("yy", "m")) ∧
+    pyx_ln_pointersOk = true ∧ pyx_g_pointersOk = true ∧ py_ln_wrapperOk = true ∧ py_g_wrapperOk = true ∧
+    (∀ xs ys ps, pyx_ln_Nparams xs ys ps = ps ∧ pyx_g_Nparams xs ys ps = ps ∧
+      pyx_ln_n xs ys ps = xs ∧ pyx_ln_m xs ys ps = ys ∧ pyx_g_n xs ys ps = xs ∧ pyx_g_m xs ys ps = ys) := by
+  refine ⟨by decide, by decide, by decide, by decide, by decide, by decide, fun _ _ _ => ⟨rfl, rfl, rfl, rfl, rfl, rfl⟩⟩
+
+end pdfs
+
+/-! ## Round 4 — the exact part of "total quadrature weight is one, up to quadrature error"
+
+The regions N = (0, a), I = [a, b], D = (b, ∞) (`regSet`, a = −neg_gammas[−1], b = −neg_gammas[0]: the bounds the
+translator reads off the quad / dblquad calls) partition the positive half line.  For ANY finite measure μ — any
+distribution of fitness effects, with a density or not — the difference between the total weight the code uses and the
+total mass is therefore exactly the sum of the per-region quadrature errors (each number the code computes minus the
+mass of its own region), in one and in two dimensions. -/
+
+section mass
+open MeasureTheory Set
+
+/-- the number `Cache1D.integrate` uses for the mass of region `r` -/
+def regionWeight1D (n : ℕ) (x w : ℕ → ℚ) (wt : Reg → ℚ) : Reg → ℚ
+  | .I => trapz n x w
+  | r => wt r
+
+/-- the number `Cache2D.integrate` uses for the mass of region (r1, r2) of the (γ1, γ2) plane -/
+def regionWeight2D (n : ℕ) (x : ℕ → ℚ) (w : ℕ → ℕ → ℚ) (wv : Reg → Reg → ℕ → ℚ) (C : Reg → Reg → ℚ) : Reg → Reg → ℚ
+  | .I, .I => trapz n x fun j => trapz n x fun i => w i j
+  | .I, .D => trapz n x (wv .I .D)
+  | .I, .N => trapz n x (wv .I .N)
+  | .D, .I => trapz n x (wv .D .I)
+  | .N, .I => trapz n x (wv .N .I)
+  | r1, r2 => C r1 r2
+
+/-- Σ over the three regions / the nine pairs of regions -/
+def sumReg {K : Type} [Add K] (f : Reg → K) : K := f .N + f .I + f .D
+def sumReg2 {K : Type} [Add K] (f : Reg → Reg → K) : K := sumReg fun r1 => sumReg fun r2 => f r1 r2
+
+/-- the total weights of `C17_no_selection_1d` / `C17_total_weight_2d` are the sums of the region weights -/
+theorem C17_total_weight_regions (n : ℕ) (x w : ℕ → ℚ) (wt : Reg → ℚ) (w2 : ℕ → ℕ → ℚ) (wv : Reg → Reg → ℕ → ℚ)
+    (C : Reg → Reg → ℚ) :
+    integrate1D true 1 n x w (fun _ => 1) 1 wt = sumReg (regionWeight1D n x w wt) ∧
+    integrate2D true false 1 n x w2 (fun _ _ => 1) wv C = sumReg2 (regionWeight2D n x w2 wv C) := by
+  constructor
+  · rw [(C17_quadrature_1d 1 n x w (fun _ => 1) 1 wt).1]
+    simp only [sumReg, regionWeight1D, mul_one, one_mul]; ring
+  · rw [C17_total_weight_2d]
+    simp only [sumReg2, sumReg, regionWeight2D]; ring
+
+/-- **1-D.**  For any finite measure μ on the line and a grid spanning [a, b], 0 < a ≤ b: total weight − total mass of
+    (0, ∞) = Σ over the three regions of (the number used − the mass of the region); hence |W − mass| ≤ Σ of the
+    per-region quadrature errors, and W is within that bound of one for a probability distribution on (0, ∞). -/
+theorem C17_total_weight_exact_1d (μ : Measure ℝ) [IsFiniteMeasure μ] (a b : ℝ) (ha : 0 < a) (hab : a ≤ b)
+    (n : ℕ) (x w : ℕ → ℚ) (wt : Reg → ℚ) :
+    ((integrate1D true 1 n x w (fun _ => 1) 1 wt : ℚ) : ℝ) - μ.real (Ioi 0)
+      = sumReg (fun r => ((regionWeight1D n x w wt r : ℚ) : ℝ) - μ.real (regSet a b r)) ∧
+    ∀ e : Reg → ℝ, (∀ r, |((regionWeight1D n x w wt r : ℚ) : ℝ) - μ.real (regSet a b r)| ≤ e r) →
+      |((integrate1D true 1 n x w (fun _ => 1) 1 wt : ℚ) : ℝ) - μ.real (Ioi 0)| ≤ sumReg e := by
+  have key : ((integrate1D true 1 n x w (fun _ => 1) 1 wt : ℚ) : ℝ) - μ.real (Ioi 0)
+      = sumReg (fun r => ((regionWeight1D n x w wt r : ℚ) : ℝ) - μ.real (regSet a b r)) := by
+    rw [(C17_total_weight_regions n x w wt (fun _ _ => 0) (fun _ _ _ => 0) (fun _ _ => 0)).1, mass_regions_1d μ ha hab]
+    simp only [sumReg]; push_cast; ring
+  refine ⟨key, fun e he => ?_⟩
+  rw [key]
+  have hN := abs_le.mp (he .N); have hI := abs_le.mp (he .I); have hD := abs_le.mp (he .D)
+  simp only [sumReg] at *
+  rw [abs_le]; constructor <;> linarith [hN.1, hN.2, hI.1, hI.2, hD.1, hD.2]
+
+/-- **2-D.**  For any finite measure μ on the plane: total weight − mass of the positive quadrant = Σ over the nine
+    regions of (the number used − the mass of the region) — interior double trapezoid, four edge trapezoids of
+    quad results, four dblquad corners, each against the mass of its own region r1 × r2 — hence
+    |W − mass| ≤ Σ of the nine quadrature errors (so W is one up to exactly those errors for a probability
+    distribution on the positive quadrant).  Without the (lethal, lethal) corner the identity is false (F-17c). -/
+theorem C17_total_weight_exact_2d (μ : Measure (ℝ × ℝ)) [IsFiniteMeasure μ] (a b : ℝ) (ha : 0 < a) (hab : a ≤ b)
+    (n : ℕ) (x : ℕ → ℚ) (w : ℕ → ℕ → ℚ) (wv : Reg → Reg → ℕ → ℚ) (C : Reg → Reg → ℚ) :
+    ((integrate2D true false 1 n x w (fun _ _ => 1) wv C : ℚ) : ℝ) - μ.real (Ioi 0 ×ˢ Ioi 0)
+      = sumReg2 (fun r1 r2 => ((regionWeight2D n x w wv C r1 r2 : ℚ) : ℝ) - μ.real (regSet a b r1 ×ˢ regSet a b r2)) ∧
+    ∀ e : Reg → Reg → ℝ,
+      (∀ r1 r2, |((regionWeight2D n x w wv C r1 r2 : ℚ) : ℝ) - μ.real (regSet a b r1 ×ˢ regSet a b r2)| ≤ e r1 r2) →
+      |((integrate2D true false 1 n x w (fun _ _ => 1) wv C : ℚ) : ℝ) - μ.real (Ioi 0 ×ˢ Ioi 0)| ≤ sumReg2 e := by
+  have key : ((integrate2D true false 1 n x w (fun _ _ => 1) wv C : ℚ) : ℝ) - μ.real (Ioi 0 ×ˢ Ioi 0)
+      = sumReg2 (fun r1 r2 => ((regionWeight2D n x w wv C r1 r2 : ℚ) : ℝ) - μ.real (regSet a b r1 ×ˢ regSet a b r2)) := by
+    rw [(C17_total_weight_regions n x (fun _ => 0) (fun _ => 0) w wv C).2, mass_regions_2d μ ha hab]
+    simp only [sumReg2, sumReg]; push_cast; ring
+  refine ⟨key, fun e he => ?_⟩
+  rw [key]
+  have h := fun r1 r2 => abs_le.mp (he r1 r2)
+  simp only [sumReg2, sumReg] at *
+  rw [abs_le]
+  constructor <;>
+    linarith [(h .N .N).1, (h .N .N).2, (h .N .I).1, (h .N .I).2, (h .N .D).1, (h .N .D).2, (h .I .N).1, (h .I .N).2,
+      (h .I .I).1, (h .I .I).2, (h .I .D).1, (h .I .D).2, (h .D .N).1, (h .D .N).2, (h .D .I).1, (h .D .I).2,
+      (h .D .D).1, (h .D .D).2]
+
+example : (0 : ℝ) < 1 ∧ (1 : ℝ) ≤ 2 := by norm_num
+
+end mass
+
+/-! ## Round 4 — point masses (any number) and mixtures when selection has no effect -/
+
+/-- (ppos₁, γ₁, ppos₂, γ₂, …) -/
+def flatPairs : List (ℚ × ℚ) → List ℚ
+  | [] => []
+  | (p, g) :: t => p :: g :: flatPairs t
+
+theorem flatPairs_length (pairs : List (ℚ × ℚ)) : (flatPairs pairs).length = 2 * pairs.length := by
+  induction pairs with
+  | nil => rfl
+  | cons p t ih => obtain ⟨a, b⟩ := p; simp only [flatPairs, List.length_cons, ih]; ring
+
+theorem everyOther_flatPairs (pairs : List (ℚ × ℚ)) :
+    everyOther (flatPairs pairs) = pairs.map Prod.fst ∧
+    ∀ a, everyOther (a :: flatPairs pairs) = a :: everyOther ((flatPairs pairs).drop 1) := by
+  induction pairs with
+  | nil => exact ⟨rfl, fun _ => rfl⟩
+  | cons p t ih =>
+    obtain ⟨a, b⟩ := p
+    refine ⟨?_, fun c => ?_⟩
+    · simp only [flatPairs, everyOther, List.map_cons, ih.1]
+    · simp only [flatPairs, everyOther, List.drop_succ_cons, List.drop_zero]
+
+theorem everyOther_flatPairs_drop (pairs : List (ℚ × ℚ)) :
+    everyOther ((flatPairs pairs).drop 1) = pairs.map Prod.snd := by
+  induction pairs with
+  | nil => rfl
+  | cons p t ih =>
+    obtain ⟨a, b⟩ := p
+    simp only [flatPairs, List.drop_succ_cons, List.drop_zero, List.map_cons]
+    rw [(everyOther_flatPairs t).2 b, ih]
+
+/-- `Cache1D.integrate_point_pos` with ANY number Npos ≥ 1 of point masses: the parameter vector
+    pdf_params ++ (ppos₁, γ₁, …, ppos_Npos, γ_Npos) is split into the pdf parameters, all the proportions and all the
+    gammas, in order. -/
+theorem C17_point_pos_1d_params (sh : List ℚ) (pairs : List (ℚ × ℚ)) (hne : pairs ≠ []) :
+    pp1Split (sh ++ flatPairs pairs) pairs.length = .ok (sh, pairs.map Prod.fst, pairs.map Prod.snd) := by
+  have hl := flatPairs_length pairs
+  have hpos : pairs.length ≠ 0 := fun h => hne (List.length_eq_zero_iff.mp h)
+  have h1 : pyDropNeg (sh ++ flatPairs pairs) (2 * pairs.length) = flatPairs pairs := pyDropNeg_append _ _ _ hl
+  have h2 : pyTakeNeg (sh ++ flatPairs pairs) (2 * pairs.length) = sh := pyTakeNeg_append _ _ _ hl
+  have hlen : ¬ (sh ++ flatPairs pairs).length < 2 * pairs.length := by
+    rw [List.length_append, hl]; omega
+  simp only [pp1Split, hpos, hlen, or_self, if_false, h1, h2, (everyOther_flatPairs pairs).1, everyOther_flatPairs_drop]
+
+example : ([(1 / 10, 2), (1 / 5, 3)] : List (ℚ × ℚ)) ≠ [] := by decide
+
+theorem ppSum_const (theta s0 : ℚ) (gs sp : List ℚ) (hS : ∀ k < gs.length, sp.getD k 0 = s0) :
+    ∀ (pposL gposL : List ℚ), pposL.length = gposL.length → (∀ g ∈ gposL, g ∈ gs) →
+      ppSum theta gs sp (pposL.zip gposL) = theta * s0 * ratSum pposL := by
+  intro pposL
+  induction pposL with
+  | nil => intro gposL _ _; simp [ppSum, ratSum]
+  | cons p t ih =>
+    intro gposL hl hg
+    cases gposL with
+    | nil => simp at hl
+    | cons g gt =>
+      have hin : g ∈ gs := hg g List.mem_cons_self
+      have hidx : gs.idxOf g < gs.length := List.idxOf_lt_length_iff.mpr hin
+      simp only [List.zip_cons_cons, ppSum, ratSum, hS _ hidx]
+      rw [ih gt (by simpa using hl) (fun g' hg' => hg g' (List.mem_cons_of_mem _ hg'))]
+      ring
+
+/-- When selection has no effect (every cached spectrum, positive gammas included, and the neutral one have the same
+    entry s0), `Cache1D.integrate_point_pos` with any number of cached point masses returns
+    theta · s0 · ((1 − Σ ppos) · W + Σ ppos), W the total weight of the continuous part — theta · s0 when W = 1. -/
+theorem C17_point_pos_1d_no_selection (ext : Bool) (theta s0 : ℚ) (computed : ℚ → Option ℚ) (pposL gposL gs sp : List ℚ)
+    (n : ℕ) (hn : 0 < n) (hnG : n ≤ gs.length) (x w : ℕ → ℚ) (wt : Reg → ℚ)
+    (hS : ∀ k < gs.length, sp.getD k 0 = s0)
+    (hl : pposL.length = gposL.length) (hg : ∀ g ∈ gposL, g ∈ gs) :
+    integratePointPos1D ext theta computed pposL gposL gs sp n x w s0 wt
+      = .ok (theta * s0 * ((1 - ratSum pposL) * integrate1D ext 1 n x w (fun _ => 1) 1 wt + ratSum pposL), gs, sp) ∧
+    (integrate1D ext 1 n x w (fun _ => 1) 1 wt = 1 →
+      integratePointPos1D ext theta computed pposL gposL gs sp n x w s0 wt = .ok (theta * s0, gs, sp)) := by
+  have hS' : ∀ i < n, (fun i => sp.getD i 0) i = s0 := fun i hi => hS i (by omega)
+  have e1 : integrate1D ext (pp1_thetaArg theta) n x w (fun i => sp.getD i 0) s0 wt
+      = theta * s0 * integrate1D ext 1 n x w (fun _ => 1) 1 wt := by
+    obtain ⟨a1, a2⟩ := C17_no_selection_1d (pp1_thetaArg theta) s0 n hn x w (fun i => sp.getD i 0) wt hS'
+    obtain ⟨b1, b2⟩ := C17_no_selection_1d 1 1 n hn x w (fun _ => 1) wt (fun _ _ => rfl)
+    cases ext
+    · rw [a2, b2]; simp only [pp1_thetaArg]; ring
+    · rw [a1, b1]; simp only [pp1_thetaArg]; ring
+  have main : integratePointPos1D ext theta computed pposL gposL gs sp n x w s0 wt
+      = .ok (theta * s0 * ((1 - ratSum pposL) * integrate1D ext 1 n x w (fun _ => 1) 1 wt + ratSum pposL), gs, sp) := by
+    rw [integratePointPos1D, C17_point_pos_1d theta computed pposL gposL gs sp _ hg, e1,
+      ppSum_const theta s0 gs sp hS pposL gposL hl hg]
+    congr 2; ring
+  refine ⟨main, fun hW => ?_⟩
+  rw [main, hW]; congr 2; ring
+
+example : (0 < 2 ∧ 2 ≤ ([-3, -1, 4] : List ℚ).length) ∧ (∀ k < ([-3, -1, 4] : List ℚ).length, ([5, 5, 5] : List ℚ).getD k 0 = 5) ∧
+    (∀ g ∈ ([4, 4] : List ℚ), g ∈ ([-3, -1, 4] : List ℚ)) := by decide
+
+/-- When selection has no effect (all cached entries equal s0), `Cache2D.integrate_point_pos` returns theta · s0 times
+    (p₊₊ + p₊₋ · M₂ + p₋₊ · M₁ + p₋₋ · W) with W the total weight of the continuous part and M₁, M₂ the interior
+    masses of the two marginals; with W = M₁ = M₂ = 1 the four quadrant weights add up and the result is theta · s0. -/
+theorem C17_point_pos_2d_no_selection (sqrt : ℚ → ℚ) (sym : Bool) (theta rho s0 : ℚ) (n : ℕ) (hn : 0 < n) (x : ℕ → ℚ)
+    (w S : ℕ → ℕ → ℚ) (wv : Reg → Reg → ℕ → ℚ) (C : Reg → Reg → ℚ) (i1 i2 : ℕ) (p1 p2 : ℚ) (hS : ∀ i j, S i j = s0) :
+    integratePointPos2D sqrt sym theta rho n x w S wv C i1 i2 p1 p2
+      = theta * s0 * (p_pos_pos sqrt p1 p2 rho
+          + p_pos_neg sqrt p1 p2 rho * trapz n x (fun k => trapz n x fun i => w i k)
+          + p_neg_pos sqrt p1 p2 rho * trapz n x (fun k => trapz n x fun j => w k j)
+          + p_neg_neg sqrt p1 p2 rho * integrate2D true sym 1 n x w (fun _ _ => 1) wv C) ∧
+    (trapz n x (fun k => trapz n x fun i => w i k) = 1 → trapz n x (fun k => trapz n x fun j => w k j) = 1 →
+      integrate2D true sym 1 n x w (fun _ _ => 1) wv C = 1 →
+      integratePointPos2D sqrt sym theta rho n x w S wv C i1 i2 p1 p2 = theta * s0) := by
+  have e : integrate2D true sym 1 n x w S wv C = s0 * integrate2D true sym 1 n x w (fun _ _ => 1) wv C := by
+    rw [C17_no_selection_2d true sym 1 s0 n hn x w S wv C (fun i _ j _ => hS i j)]; ring
+  have main : integratePointPos2D sqrt sym theta rho n x w S wv C i1 i2 p1 p2
+      = theta * s0 * (p_pos_pos sqrt p1 p2 rho
+          + p_pos_neg sqrt p1 p2 rho * trapz n x (fun k => trapz n x fun i => w i k)
+          + p_neg_pos sqrt p1 p2 rho * trapz n x (fun k => trapz n x fun j => w k j)
+          + p_neg_neg sqrt p1 p2 rho * integrate2D true sym 1 n x w (fun _ _ => 1) wv C) := by
+    rw [C17_point_pos_2d, e]
+    simp only [hS, trapz_const_mul]
+    ring
+  refine ⟨main, fun h1 h2 h3 => ?_⟩
+  rw [main, h1, h2, h3]
+  have q := (C17_quadrants sqrt p1 p2 rho).1
+  linear_combination theta * s0 * q
+
+example : (∀ i j : ℕ, (fun _ _ : ℕ => (3 : ℚ)) i j = 3) ∧ 0 < 2 := ⟨fun _ _ => rfl, by decide⟩
+
+/-- **`DFE.mixture` when selection has no effect**: with every cached spectrum of both caches and the neutral spectrum
+    equal to s0 the result is theta · s0 · ((1 − p2d) · W₁ + p2d · W₂), W₁ / W₂ the total quadrature weights of the 1-D /
+    2-D component (the very same assemblies on all-ones spectra); theta · s0 when both weights are one. -/
+theorem C17_mixture_no_selection (ext sym : Bool) (theta p2d s0 : ℚ) (n1 : ℕ) (hn1 : 0 < n1) (x1 w1 S1 : ℕ → ℚ)
+    (wt : Reg → ℚ) (n2 : ℕ) (hn2 : 0 < n2) (x2 : ℕ → ℚ) (w2 S2 : ℕ → ℕ → ℚ) (wv : Reg → Reg → ℕ → ℚ) (C : Reg → Reg → ℚ)
+    (hS1 : ∀ i < n1, S1 i = s0) (hS2 : ∀ i < n2, ∀ j < n2, S2 i j = s0) :
+    mixtureEntry ext theta p2d n1 x1 w1 S1 s0 wt sym n2 x2 w2 S2 wv C
+      = theta * s0 * ((1 - p2d) * integrate1D ext 1 n1 x1 w1 (fun _ => 1) 1 wt
+          + p2d * integrate2D ext sym 1 n2 x2 w2 (fun _ _ => 1) wv C) ∧
+    (integrate1D ext 1 n1 x1 w1 (fun _ => 1) 1 wt = 1 → integrate2D ext sym 1 n2 x2 w2 (fun _ _ => 1) wv C = 1 →
+      mixtureEntry ext theta p2d n1 x1 w1 S1 s0 wt sym n2 x2 w2 S2 wv C = theta * s0) := by
+  have e1 : integrate1D ext theta n1 x1 w1 S1 s0 wt = theta * s0 * integrate1D ext 1 n1 x1 w1 (fun _ => 1) 1 wt := by
+    obtain ⟨a1, a2⟩ := C17_no_selection_1d theta s0 n1 hn1 x1 w1 S1 wt hS1
+    obtain ⟨b1, b2⟩ := C17_no_selection_1d 1 1 n1 hn1 x1 w1 (fun _ => 1) wt (fun _ _ => rfl)
+    cases ext
+    · rw [a2, b2]; ring
+    · rw [a1, b1]; ring
+  have main : mixtureEntry ext theta p2d n1 x1 w1 S1 s0 wt sym n2 x2 w2 S2 wv C
+      = theta * s0 * ((1 - p2d) * integrate1D ext 1 n1 x1 w1 (fun _ => 1) 1 wt
+          + p2d * integrate2D ext sym 1 n2 x2 w2 (fun _ _ => 1) wv C) := by
+    rw [mixtureEntry, e1, C17_no_selection_2d ext sym theta s0 n2 hn2 x2 w2 S2 wv C hS2, (C17_mixture_weights p2d _ _).1]
+    ring
+  refine ⟨main, fun h1 h2 => ?_⟩
+  rw [main, h1, h2]; ring
+
+example : (∀ i < 2, (fun _ : ℕ => (7 : ℚ)) i = 7) ∧ (∀ i < 2, ∀ j < 2, (fun _ _ : ℕ => (7 : ℚ)) i j = 7) :=
+  ⟨fun _ _ => rfl, fun _ _ _ _ => rfl⟩
+
+/-- **`DFE.mixture_point_pos` / `DFE.mixture_symmetric_point_pos` when selection has no effect**: the result is
+    theta · s0 · ((1 − p2d) · ((1 − ppos) · W₁ + ppos) + p2d · (p₊₊ + p₊₋ M₂ + p₋₊ M₁ + p₋₋ W₂)); with all of W₁, W₂, M₁,
+    M₂ equal to one it is theta · s0 — the weights p2d, 1 − p2d, the point-mass proportions and the four quadrant
+    weights add up to one. -/
+theorem C17_mixture_point_no_selection (symm : Bool) (sqrt : ℚ → ℚ) (theta p2d ppos gpos s0 : ℚ) (gs1 sp1 : List ℚ)
+    (n1 : ℕ) (hn1 : 0 < n1) (hnG : n1 ≤ gs1.length) (x1 w1 : ℕ → ℚ) (wt : Reg → ℚ)
+    (sym : Bool) (rho : ℚ) (n2 : ℕ) (hn2 : 0 < n2) (x2 : ℕ → ℚ) (w2 S2 : ℕ → ℕ → ℚ) (wv : Reg → Reg → ℕ → ℚ)
+    (C : Reg → Reg → ℚ) (i1 i2 : ℕ) (p1 p2 : ℚ)
+    (hS1 : ∀ k < gs1.length, sp1.getD k 0 = s0) (hg : gpos ∈ gs1)
+    (hS2 : ∀ i j, S2 i j = s0) :
+    mixturePointEntry symm sqrt theta p2d ppos gpos gs1 sp1 n1 x1 w1 s0 wt sym rho n2 x2 w2 S2 wv C i1 i2 p1 p2
+      = .ok (theta * s0 * ((1 - p2d) * ((1 - ppos) * integrate1D true 1 n1 x1 w1 (fun _ => 1) 1 wt + ppos)
+          + p2d * (p_pos_pos sqrt p1 p2 rho
+              + p_pos_neg sqrt p1 p2 rho * trapz n2 x2 (fun k => trapz n2 x2 fun i => w2 i k)
+              + p_neg_pos sqrt p1 p2 rho * trapz n2 x2 (fun k => trapz n2 x2 fun j => w2 k j)
+              + p_neg_neg sqrt p1 p2 rho * integrate2D true sym 1 n2 x2 w2 (fun _ _ => 1) wv C))) ∧
+    (integrate1D true 1 n1 x1 w1 (fun _ => 1) 1 wt = 1 →
+      trapz n2 x2 (fun k => trapz n2 x2 fun i => w2 i k) = 1 → trapz n2 x2 (fun k => trapz n2 x2 fun j => w2 k j) = 1 →
+      integrate2D true sym 1 n2 x2 w2 (fun _ _ => 1) wv C = 1 →
+      mixturePointEntry symm sqrt theta p2d ppos gpos gs1 sp1 n1 x1 w1 s0 wt sym rho n2 x2 w2 S2 wv C i1 i2 p1 p2
+        = .ok (theta * s0)) := by
+  have hg' : ∀ g ∈ [gpos], g ∈ gs1 := fun g hgm => by rw [List.mem_singleton.mp hgm]; exact hg
+  obtain ⟨a1, a2⟩ := C17_point_pos_1d_no_selection true theta s0 (fun _ => none) [ppos] [gpos] gs1 sp1 n1 hn1 hnG x1 w1 wt
+    hS1 rfl hg'
+  obtain ⟨b1, b2⟩ := C17_point_pos_2d_no_selection sqrt sym theta rho s0 n2 hn2 x2 w2 S2 wv C i1 i2 p1 p2 hS2
+  have hs : ratSum [ppos] = ppos := by simp [ratSum]
+  constructor
+  · simp only [mixturePointEntry, a1, b1, hs]
+    cases symm <;> simp only [mixsym_combine, mixpt_combine, if_true, Bool.false_eq_true, if_false] <;> congr 1 <;> ring
+  · intro h1 h2 h3 h4
+    simp only [mixturePointEntry, a2 h1, b2 h2 h3 h4]
+    cases symm <;> simp only [mixsym_combine, mixpt_combine, if_true, Bool.false_eq_true, if_false] <;> congr 1 <;> ring
+
+example : (4 : ℚ) ∈ ([-3, -1, 4] : List ℚ) := by decide
 
 end DadiVerif
